@@ -185,6 +185,29 @@ fn idstr_case<B: Backend>(c: &IdStrCase, acc: &mut Acc) -> R {
             }
         }
     }
+    // every route by which a string is offered as an id - FromStr, and serde from a borrowed string,
+    // an owned one and a reader - gives the same verdict: whitespace or line breaks around a valid id
+    // text are not part of an id
+    if c.a.len() == 33 {
+        let good = format!("{h}{}", b64_encode(&c.a));
+        let routes = |t: &str| -> [bool; 4] {
+            let lit = serde_json::to_string(t).unwrap_or_default();
+            [
+                t.parse::<KeyId<V<B>, Local>>().is_ok(),
+                serde_json::from_str::<KeyId<V<B>, Local>>(&lit).is_ok(),
+                serde_json::from_value::<KeyId<V<B>, Local>>(serde_json::Value::String(t.to_string())).is_ok(),
+                serde_json::from_reader::<_, KeyId<V<B>, Local>>(lit.as_bytes()).is_ok(),
+            ]
+        };
+        ensure!(routes(&good) == [true; 4], format!("C13/{name}/id-parse/routes-disagree-on-valid-id"), "a valid id text is not accepted by every route (FromStr, serde borrowed / owned / reader): {:?}", routes(&good));
+        for ws in [" ", "\n", "\r\n", "\t", "\u{a0}", "\u{2003}", "\u{3000}", "\u{feff}"] {
+            for t in [format!("{good}{ws}"), format!("{ws}{good}"), format!("{ws}{good}{ws}")] {
+                let r = routes(&t);
+                ensure!(r == [false; 4], format!("C13/{name}/id-parse/padded-id-accepted"), "the id text wrapped in {ws:?} is accepted by some route (FromStr, serde borrowed, serde owned, serde reader) = {r:?}");
+            }
+        }
+        acc.class("id-string:every-route-same-verdict");
+    }
     // arbitrary strings: accepted iff header + canonical base64 of exactly 33 bytes
     let j = c.junk.parse::<KeyId<V<B>, Local>>();
     let model_ok = c.junk.strip_prefix(&h).and_then(crate::util::b64_decode).map(|b| b.len() == 33).unwrap_or(false);
